@@ -106,6 +106,22 @@ func (s *FrameBindingRewriter) rewriteArrayLiteral(literal *pgsql.ArrayLiteral) 
 	return nil
 }
 
+// rewriteTypeCast rewrites an entity column reference under a type cast (toString(id(n)), a string predicate on
+// id(n)): `n0.id` names the table alias of the frame that binds n and has to become `(s0.n0).id` everywhere else.
+// TypeCast is a value type: the walk cannot replace the operand when it visits the cast itself, so the node that
+// holds the cast has to store the rewritten copy. A bare identifier under a cast is left as it is; it is a column
+// name that resolves on its own while its frame is in the FROM clause.
+func (s *FrameBindingRewriter) rewriteTypeCast(typeCast pgsql.TypeCast) (pgsql.TypeCast, error) {
+	switch typeCast.Expression.(type) {
+	case pgsql.CompoundIdentifier, pgsql.TypeCast:
+		if err := s.rewriteExpression(&typeCast.Expression); err != nil {
+			return typeCast, err
+		}
+	}
+
+	return typeCast, nil
+}
+
 func (s *FrameBindingRewriter) rewriteExpression(expression *pgsql.Expression) error {
 	if expression == nil || *expression == nil {
 		return nil
@@ -143,6 +159,13 @@ func (s *FrameBindingRewriter) rewriteExpression(expression *pgsql.Expression) e
 
 	case *pgsql.ArrayLiteral:
 		return s.rewriteArrayLiteral(typedExpression)
+
+	case pgsql.TypeCast:
+		if rewritten, err := s.rewriteTypeCast(typedExpression); err != nil {
+			return err
+		} else {
+			*expression = rewritten
+		}
 	}
 
 	return nil
@@ -183,6 +206,13 @@ func (s *FrameBindingRewriter) enter(node pgsql.SyntaxNode) error {
 	case pgsql.Projection:
 		for idx, projection := range typedExpression {
 			switch typedProjection := projection.(type) {
+			case pgsql.TypeCast:
+				if rewritten, err := s.rewriteTypeCast(typedProjection); err != nil {
+					return err
+				} else {
+					typedExpression[idx] = rewritten
+				}
+
 			case pgsql.Identifier:
 				if rewritten, err := rewriteIdentifierScopeReference(s.scope, typedProjection); err != nil {
 					return err
@@ -254,6 +284,13 @@ func (s *FrameBindingRewriter) enter(node pgsql.SyntaxNode) error {
 	case pgsql.FunctionCall:
 		for idx, parameter := range typedExpression.Parameters {
 			switch typedParameter := parameter.(type) {
+			case pgsql.TypeCast:
+				if rewritten, err := s.rewriteTypeCast(typedParameter); err != nil {
+					return err
+				} else {
+					typedExpression.Parameters[idx] = rewritten
+				}
+
 			case pgsql.Identifier:
 				if rewritten, err := rewriteIdentifierScopeReference(s.scope, typedParameter); err != nil {
 					return err
@@ -315,6 +352,13 @@ func (s *FrameBindingRewriter) enter(node pgsql.SyntaxNode) error {
 
 	case *pgsql.OrderBy:
 		switch typedOrderByExpression := typedExpression.Expression.(type) {
+		case pgsql.TypeCast:
+			if rewritten, err := s.rewriteTypeCast(typedOrderByExpression); err != nil {
+				return err
+			} else {
+				typedExpression.Expression = rewritten
+			}
+
 		case pgsql.Identifier:
 			if rewritten, err := rewriteIdentifierScopeReference(s.scope, typedOrderByExpression); err != nil {
 				return err
@@ -412,6 +456,13 @@ func (s *FrameBindingRewriter) enter(node pgsql.SyntaxNode) error {
 
 	case *pgsql.Parenthetical:
 		switch typedInnerExpression := typedExpression.Expression.(type) {
+		case pgsql.TypeCast:
+			if rewritten, err := s.rewriteTypeCast(typedInnerExpression); err != nil {
+				return err
+			} else {
+				typedExpression.Expression = rewritten
+			}
+
 		case pgsql.Identifier:
 			if rewritten, err := rewriteIdentifierScopeReference(s.scope, typedInnerExpression); err != nil {
 				return err
@@ -454,6 +505,13 @@ func (s *FrameBindingRewriter) enter(node pgsql.SyntaxNode) error {
 
 	case *pgsql.AliasedExpression:
 		switch typedInnerExpression := typedExpression.Expression.(type) {
+		case pgsql.TypeCast:
+			if rewritten, err := s.rewriteTypeCast(typedInnerExpression); err != nil {
+				return err
+			} else {
+				typedExpression.Expression = rewritten
+			}
+
 		case pgsql.Identifier:
 			if rewritten, err := rewriteIdentifierScopeReference(s.scope, typedInnerExpression); err != nil {
 				return err
@@ -493,6 +551,13 @@ func (s *FrameBindingRewriter) enter(node pgsql.SyntaxNode) error {
 
 	case *pgsql.AnyExpression:
 		switch typedInnerExpression := typedExpression.Expression.(type) {
+		case pgsql.TypeCast:
+			if rewritten, err := s.rewriteTypeCast(typedInnerExpression); err != nil {
+				return err
+			} else {
+				typedExpression.Expression = rewritten
+			}
+
 		case pgsql.Identifier:
 			if rewritten, err := rewriteIdentifierScopeReference(s.scope, typedInnerExpression); err != nil {
 				return err
@@ -532,6 +597,13 @@ func (s *FrameBindingRewriter) enter(node pgsql.SyntaxNode) error {
 
 	case *pgsql.UnaryExpression:
 		switch typedOperand := typedExpression.Operand.(type) {
+		case pgsql.TypeCast:
+			if rewritten, err := s.rewriteTypeCast(typedOperand); err != nil {
+				return err
+			} else {
+				typedExpression.Operand = rewritten
+			}
+
 		case pgsql.Identifier:
 			if rewritten, err := rewriteIdentifierScopeReference(s.scope, typedOperand); err != nil {
 				return err
@@ -571,6 +643,13 @@ func (s *FrameBindingRewriter) enter(node pgsql.SyntaxNode) error {
 
 	case *pgsql.BinaryExpression:
 		switch typedLOperand := typedExpression.LOperand.(type) {
+		case pgsql.TypeCast:
+			if rewritten, err := s.rewriteTypeCast(typedLOperand); err != nil {
+				return err
+			} else {
+				typedExpression.LOperand = rewritten
+			}
+
 		case pgsql.Identifier:
 			if rewritten, err := rewriteIdentifierScopeReference(s.scope, typedLOperand); err != nil {
 				return err
@@ -609,6 +688,13 @@ func (s *FrameBindingRewriter) enter(node pgsql.SyntaxNode) error {
 		}
 
 		switch typedROperand := typedExpression.ROperand.(type) {
+		case pgsql.TypeCast:
+			if rewritten, err := s.rewriteTypeCast(typedROperand); err != nil {
+				return err
+			} else {
+				typedExpression.ROperand = rewritten
+			}
+
 		case pgsql.Identifier:
 			if rewritten, err := rewriteIdentifierScopeReference(s.scope, typedROperand); err != nil {
 				return err
